@@ -3,6 +3,7 @@ import STProofs.Hermite
 import STProofs.TimeForms
 import STProofs.QuinticUnique
 import STProofs.SepticUnique
+import STProofs.Trajectory
 /-!
 # C01 — interpolation, boundary states (property theorems)
 
@@ -11,6 +12,12 @@ positive).  Quintic / septic interpolation and boundary states: `quintic_build_h
 identities; the solvability side condition is discharged by the pivot theorems `QuinticPiv/SepticPiv.detOK_of_pos`).
 Time specification: `buildNDtp_cumulative` (absolute time points ≡ durations + start time), `cumulative_last`,
 `cumulative_length` (knot-time bookkeeping).
+
+End to end, on the object the user queries: `Traj.traj_eval` — the trajectory a D-dimensional spline publishes
+(`initializePPoly` on the cumulative times and the stacked blocks, then `findSegment` + Horner evaluation) evaluates at any
+time `t`, coordinate by coordinate, to the polynomial of the segment containing `t` at local time `t − t_i`; and
+`Traj.traj_at_knot` — it passes through waypoint `i` at knot time `i`, for every order, dimension, N ≥ 1 and all positive
+durations (`specIdx_knot`, `specIdx_last`, `colOf_interp`).
 -/
 open ST ST.Cubic
 
